@@ -177,6 +177,17 @@ Fixpoint items_of (r : N) (evs : list pev) (obs : list pobs) : list N :=
   | _, _ => []
   end.
 
+(* reader r ran to the end of its iteration within the trace (its PNext found nothing left) before any PClose r *)
+Fixpoint ended_in (r : N) (evs : list pev) (obs : list pobs) : bool :=
+  match evs, obs with
+  | PNext r' :: evs', OItem (Some _) :: obs' => ended_in r evs' obs'
+  | PNext r' :: evs', OItem None :: obs' => if N.eqb r r' then true else ended_in r evs' obs'
+  | PNext r' :: evs', _ :: obs' => if N.eqb r r' then false else ended_in r evs' obs'
+  | PClose r' :: evs', _ :: obs' => if N.eqb r r' then false else ended_in r evs' obs'
+  | _ :: evs', _ :: obs' => ended_in r evs' obs'
+  | _, _ => false
+  end.
+
 (* ------------------------------------------------------------------------------------------------
    The property predicate on an OBSERVED trace (events + what the implementation returned / handed out).  It uses
    only the DAG and list helpers: the presentation of tree k is a function of what tree k holds —
